@@ -43,6 +43,13 @@ TopologyStep ==
           ELSE IF BothDecayFlip(T, a) THEN PrintT(<<"STAT", "both-decay-flip", 1>>)
           ELSE Clause("angle-meaning", FALSE, <<kind, a>>)
   /\ Clause("mass-meaning", ObsMasses = DocMasses(T), <<ObsMasses, DocMasses(T)>>)
+  \* naming functions are total on the edges of the topology and agree with Topo
+  /\ \A i \in DOMAIN Rec.suffixes :
+        LET S == ToSet(Rec.suffixes[i][1]) IN
+        Clause("boost-chain-suffix", S # Root(T) => SeqOfSets(Rec.suffixes[i][2]) = AngleName(T, S), <<S, Rec.suffixes[i][2], AngleName(T, S)>>)
+  /\ Clause("topology-identifier", SetOfSets(Rec.topo_id) = TopoId(T), <<Rec.topo_id, TopoId(T)>>)
+  /\ \A i \in DOMAIN Rec.opposite :
+        Clause("opposite-helicity-state", (Rec.opposite[i][2] = 1) = IsOpposite(T, ToSet(Rec.opposite[i][1])), Rec.opposite[i])
   /\ PrintT(<<"STAT", "angles-checked", Cardinality(ObsAngles("phi")) + Cardinality(ObsAngles("theta"))>>)
 
 AnglesOf(x, kind) == { [name |-> SeqOfSets(a.name), target |-> ToSet(a.target), frame |-> SeqOfSets(a.frame)] :
@@ -58,6 +65,10 @@ AdapterStep ==
       Expected == IF Rec.permuted = 1 THEN { Relabel(T, pi) : T \in Init0, pi \in Perms(F0) } ELSE Init0
   IN
   /\ Clause("registered-set", Reg = Expected, <<Cardinality(Reg), Cardinality(Expected)>>)
+  \* Permutate is a closure (applying it again adds nothing); registering a topology twice adds nothing;
+  \* a topology over other final-state ids is refused
+  /\ Clause("permutate-idempotent", Rec.count_again = Rec.count, <<Rec.count, Rec.count_again>>)
+  /\ Clause("mismatching-final-state-ids-refused", Rec.mismatch_refused = 1, "")
   /\ \A kind \in {"phi", "theta"} :
        /\ Clause("merged-covers", { a.name : a \in ObsAngles(kind) } =
                     UNION { { a.name : a \in AnglesOf(Rec.tops[i], kind) } : i \in DOMAIN Rec.tops }, kind)
